@@ -54,6 +54,9 @@ type driver struct {
 	// newSys returns a constructor for fresh instances of the given trace
 	// variant ("tree", "lin", ...) and the zero projection; used by replay.
 	newSys func(variant string) (func() tt.Sys, any)
+	// replayRaw re-executes a driver-specific replay description (schedules of the
+	// concurrency drivers) and optionally writes the recording to out.
+	replayRaw func(raw []byte, out string) (any, error)
 }
 
 var drivers = map[string]driver{}
@@ -87,6 +90,16 @@ func main() {
 				os.Exit(2)
 			}
 			raw = b
+		}
+		if d.replayRaw != nil {
+			res, err := d.replayRaw(raw, replayOut)
+			if err != nil {
+				fmt.Fprintln(os.Stderr, err)
+				os.Exit(2)
+			}
+			b, _ := json.Marshal(res)
+			fmt.Println(string(b))
+			return
 		}
 		if err := json.Unmarshal(raw, &path); err != nil {
 			fmt.Fprintln(os.Stderr, err)
